@@ -218,10 +218,15 @@ func (k Keeper) AppendPriceTR(ctx sdk.Context, tokenID uint64, priceTR types.Pri
 	assetIDs := p.GetAssetIDsFromTokenID(tokenID)
 	for _, assetID := range assetIDs {
 		if assetstypes.IsNST(assetID) {
-			if err := k.UpdateNSTByBalanceChange(ctx, assetID, []byte(priceTR.Price), roundID); err != nil {
+			// the balance changes of all stakers are applied atomically: a report that is rejected
+			// for one staker must not leave the stakers before it updated.
+			cc, writeCache := ctx.CacheContext()
+			if err := k.UpdateNSTByBalanceChange(cc, assetID, []byte(priceTR.Price), roundID); err != nil {
 				// we just report this error in log to notify validators
 				k.Logger(ctx).Error(types.ErrUpdateNativeTokenVirtualPriceFail.Error(), "error", err)
+				continue
 			}
+			writeCache()
 		}
 	}
 
